@@ -199,29 +199,42 @@ def h_shape_policy(E, raised, detail, suppress):
     return [o[0] for o in outs]
 
 
-def h_linear(E, mode):
-    """LinearComparer with only equals/offset configured (lstsq-based modes are outside the claim): 3 scalar samples"""
+def h_linear(E, mode, n=3):
+    """LinearComparer with only equals/offset configured (lstsq-based modes are outside the claim): 3 scalar samples; the configured credits
+    are symbolic, in any order (a more general relation may be worth more than a more specific one)"""
     from mitxgraders.comparers import LinearComparer
     cfg = {'equals': 1.0, 'proportional': None, 'offset': None, 'linear': None}
+    ce = co = None
     if mode == 'offset':
         cfg = {'equals': 1.0, 'proportional': None, 'offset': 0.5, 'linear': None, 'offset_msg': 'off'}
+    if mode == 'offset-any-credits':
+        ce, co = E.real('credit_equals', 0, 1), E.real('credit_offset', 0, 1)
+        cfg = {'equals': ce, 'proportional': None, 'offset': co, 'linear': None, 'offset_msg': 'off', 'equals_msg': 'eq'}
     cmp_ = LinearComparer(cfg)
     tol = E.real('tol', 0, 1)
-    es = [E.real('e%d' % i, -3, 3) for i in range(3)]
-    ss = [E.real('s%d' % i, -3, 3) for i in range(3)]
+    if n == '1-symbolic':
+        # quick variant: one symbolic student sample, the other two concrete (equal to the expected ones, or shifted by a common offset)
+        n = 3
+        d = E.choice('shift', [0, 0.5])
+        es = [1.0, 2.0, 3.0]
+        ss = [E.real('s0', -3, 3), 2.0 + d, 3.0 + d]
+    else:
+        es = [E.real('e%d' % i, -3, 3) for i in range(n)]
+        ss = [E.real('s%d' % i, -3, 3) for i in range(n)]
     r = cmp_([[e] for e in es], ss, utils_for(tol))
-    eq2 = sum((es[i] - ss[i]) * (es[i] - ss[i]) for i in range(3))
+    eq2 = sum((es[i] - ss[i]) * (es[i] - ss[i]) for i in range(n))
     equals = near_le(eq2, tol * tol)
     if mode == 'equals':
         E.check('equals-credit-iff-equal-within-tolerance', siff(near_eq(r['grade_decimal'], 1), equals))
         E.check('otherwise-zero', sor(near_eq(r['grade_decimal'], 1), near_eq(r['grade_decimal'], 0)))
     else:
-        mean = sum(es[i] - ss[i] for i in range(3)) / 3
-        off2 = sum((ss[i] + mean - es[i]) * (ss[i] + mean - es[i]) for i in range(3))
+        mean = sum(es[i] - ss[i] for i in range(n)) / n
+        off2 = sum((ss[i] + mean - es[i]) * (ss[i] + mean - es[i]) for i in range(n))
         offset = near_le(off2, tol * tol)
-        E.check('largest-credit-among-holding-relations', sand(simplies(equals, near_eq(r['grade_decimal'], 1)),
-                                                               simplies(sand(snot(equals), offset), near_eq(r['grade_decimal'], 0.5)),
-                                                               simplies(sand(snot(equals), snot(offset)), near_eq(r['grade_decimal'], 0))))
+        if mode == 'offset':
+            ce, co = 1, 0.5
+        best = smax(sif(equals, ce, 0), sif(offset, co, 0))
+        E.check('largest-credit-among-holding-relations', near_eq(r['grade_decimal'], best))
     return 'ok'
 
 
@@ -344,4 +357,7 @@ def harnesses(tier):
         hs[-1].params = (shape, samples)
     for mode in ('equals',) + (('offset',) if T else ()):
         add(h_linear, 'linear', dict(mode=mode), '3 scalar samples (NRA)', expect_inconclusive=True)
+    add(h_linear, 'linear', dict(mode='offset-any-credits', n='1-symbolic'), '3 scalar samples of which one student sample symbolic; symbolic credits for equals and offset in any order', expect_inconclusive=True)
+    if T:
+        add(h_linear, 'linear', dict(mode='offset-any-credits', n=3), '3 symbolic scalar samples, symbolic credits for equals and offset in any order (NRA)', expect_inconclusive=True)
     return hs
